@@ -618,8 +618,64 @@ pub fn units() -> Vec<Unit> {
             Fn("Session::handle_rx"),
         ],
     },
+    // C08 / C10: `DynamicChannelPlan::handle_new_channel` and `channel_dl_update` (NewChannelReq / DlChannelReq on
+    // dynamic plans).  Abstract: the region's parameters (`R::NUM_JOIN_CHANNELS`, `R::datarates()`, the band test
+    // behind `frequency_valid`; a parameter `R`) and the bit operations of `ChannelMask` (`set_channel`,
+    // `is_enabled`; a parameter `mops`).  Translated for real: the two handlers, `DataRateRange::{min,max}_data_rate`,
+    // `Channel::new_with_dr`.
+    Unit {
+        module: "Gen.DynPlanFn",
+        file: "lorawan-device/src/region/dynamic_channel_plans/mod.rs",
+        more_files: vec!["lorawan-device/src/region/mod.rs", "lorawan-device/src/region/constants.rs", "lorawan-encoding/src/types.rs"],
+        imports: vec!["LoraVerif.Gen.Region"],
+        items: vec![
+            ExternEnum("DR"),
+            Const("NUM_CHANNELS_DYNAMIC"),
+            Const("NUM_DATARATES"),
+            Newtype("DataRateRange"),
+            Fn("DataRateRange::max_data_rate"),
+            Fn("DataRateRange::min_data_rate"),
+            Struct("Channel"),
+            Fn("Channel::new_with_dr"),
+            Raw(DYN_PLAN_RAW1),
+            ExternStructRaw("ChannelMask", &[]),
+            ExternStructRaw("Datarate", &[]),
+            StructPartial("DynamicChannelPlan", &["channels", "channel_mask"]),
+            Raw(DYN_PLAN_RAW2),
+            ExternConst("R::NUM_JOIN_CHANNELS", "u8", "R.NUM_JOIN_CHANNELS"),
+            ExternFn("R::datarates", "R.datarates", &[], "[Option<Datarate>]"),
+            ExternFn("DynamicChannelPlan::frequency_valid", "DynamicChannelPlan.frequency_valid R", &[("self", "DynamicChannelPlan"), ("freq", "u32")], "bool"),
+            ExternFnX("ChannelMask::set_channel", "mops.set_channel", &[("self", "ChannelMask"), ("channel", "usize"), ("set", "bool")], "", &["self"], true),
+            ExternFn("ChannelMask::is_enabled", "mops.is_enabled", &[("self", "ChannelMask"), ("index", "usize")], "Result<bool, Error>"),
+            TraitFn("RegionHandler", "DynamicChannelPlan", "channel_dl_update"),
+            TraitFn("RegionHandler", "DynamicChannelPlan", "handle_new_channel"),
+        ],
+    },
     ]
 }
+
+/// Lean text of the abstract part of `Gen.DynPlanFn`
+const DYN_PLAN_RAW1: &str = r#"/-- `ChannelMask<9>`: its bytes; the bit operations on it are abstract (`MaskFns`) -/
+structure ChannelMask where
+  bytes : List Int
+  deriving DecidableEq, Repr
+"#;
+const DYN_PLAN_RAW2: &str = r#"/-- what the two handlers read of the plan's region type `R: DynamicChannelRegion` and of the band test the
+plan was constructed with (`State::new` wires it; `Gen.RegionStatic`) -/
+structure DynRegion where
+  NUM_JOIN_CHANNELS : Int
+  datarates : List (Option Datarate)
+  frequency_valid : Int → Bool
+variable (R : DynRegion)
+/-- `DynamicChannelPlan::frequency_valid(&self, f)`: calls the stored function pointer -/
+def DynamicChannelPlan.frequency_valid (self : DynamicChannelPlan) (freq : Int) : Bool := R.frequency_valid freq
+/-- the two `ChannelMask` methods the handlers call: `set_channel` (`none` = out-of-bounds panic) and
+`is_enabled` (`none` = `Err(InvalidIndex)`) -/
+structure MaskFns where
+  set_channel : ChannelMask → Int → Bool → Option ChannelMask
+  is_enabled : ChannelMask → Int → Option Bool
+variable (mops : MaskFns)
+"#;
 
 /// Lean text of the abstract part of `Gen.SessionRx`
 const SESSION_RX_RAW1: &str = r#"/-! Keys and addresses are opaque identities; a crypto context is the key it is bound to.  Parsing,
